@@ -35,19 +35,7 @@ func (p *Prog) origin(v ssa.Value) ssa.Value {
 				// load of a captured / local variable cell with exactly one store
 				if cell := p.origin(x.X); cell != nil {
 					if al, ok := cell.(*ssa.Alloc); ok {
-						var stores []*ssa.Store
-						okAll := true
-						for _, r := range refs(al) {
-							switch y := r.(type) {
-							case *ssa.Store:
-								if y.Addr == al {
-									stores = append(stores, y)
-								}
-							case *ssa.UnOp, *ssa.MakeClosure, *ssa.DebugRef:
-							default:
-								okAll = false
-							}
-						}
+						stores, okAll := cellStores(al, 0)
 						if okAll && len(stores) == 1 {
 							v = stores[0].Val
 							continue
@@ -499,4 +487,39 @@ func heldLocks(p *Prog) map[ssa.Instruction]lstate {
 	}
 	la.RunAll()
 	return held
+}
+
+// cellStores returns every store into a local variable cell, including stores made through closure captures of the cell
+// (free variables of nested closures). okAll is false when the cell's address is used in a way we do not follow.
+func cellStores(cell ssa.Value, depth int) ([]*ssa.Store, bool) {
+	var stores []*ssa.Store
+	okAll := true
+	if depth > 4 {
+		return nil, false
+	}
+	for _, r := range refs(cell) {
+		switch y := r.(type) {
+		case *ssa.Store:
+			if y.Addr == cell {
+				stores = append(stores, y)
+			} else {
+				okAll = false
+			}
+		case *ssa.UnOp, *ssa.DebugRef:
+		case *ssa.MakeClosure:
+			fn, _ := y.Fn.(*ssa.Function)
+			for i, b := range y.Bindings {
+				if b == cell && fn != nil && i < len(fn.FreeVars) {
+					st, ok := cellStores(fn.FreeVars[i], depth+1)
+					stores = append(stores, st...)
+					if !ok {
+						okAll = false
+					}
+				}
+			}
+		default:
+			okAll = false
+		}
+	}
+	return stores, okAll
 }
